@@ -15,7 +15,7 @@
 #include <hgraph/types/time_series/ts_delta.h>
 #include <hgraph/types/value/value_builder.h>
 
-// shapes: 0 TSS<int>  1 TSD<int,TS<int>>  2 TSL<TS<int>> (dynamic)  3 TSB{a,b}  4 TSW<int,N,min>
+// shapes: 0 TSS<int>  1 TSD<int,TS<int>>  2 TSL<TS<int>> (dynamic)  3 TSB{a,b}  4 TSW<int,N,min>  5 TSD<int,TSS<int>>
 #ifndef ONLY_SHAPE
 #define ONLY_SHAPE -1  // -1: the shape is enumerated (verif_choice); 0..4: only that shape (dev runs)
 #endif
@@ -33,6 +33,9 @@
 #endif
 #ifndef BIG_LAST
 #define BIG_LAST NOPS
+#endif
+#ifndef MID5
+#define MID5 1  // operations in the middle cycle of the nested shape TSD<int,TSS<int>>
 #endif
 #ifndef NOPS
 #define NOPS 2
@@ -80,15 +83,21 @@ using namespace hkts;
 #include "C05_delta_shape.inc"
 #undef SHAPE
 #undef SHAPE_NS
+#define SHAPE 5
+#define SHAPE_NS shape_tsd_tss
+#include "C05_delta_shape.inc"
+#undef SHAPE
+#undef SHAPE_NS
 
 extern "C" int harness_main() {
     (void)schemas();  // concrete set-up shared by all shapes
-    int shape = ONLY_SHAPE >= 0 ? ONLY_SHAPE : verif_choice("shape", 5);
+    int shape = ONLY_SHAPE >= 0 ? ONLY_SHAPE : verif_choice("shape", 6);
     switch (shape) {
         case 0: shape_tss::g_reach.mark("shape_tss"); return shape_tss::run();
         case 1: shape_tsd::g_reach.mark("shape_tsd"); return shape_tsd::run();
         case 2: shape_tsl::g_reach.mark("shape_tsl"); return shape_tsl::run();
         case 3: shape_tsb::g_reach.mark("shape_tsb"); return shape_tsb::run();
-        default: shape_tsw::g_reach.mark("shape_tsw"); return shape_tsw::run();
+        case 4: shape_tsw::g_reach.mark("shape_tsw"); return shape_tsw::run();
+        default: shape_tsd_tss::g_reach.mark("shape_tsd_tss"); return shape_tsd_tss::run();
     }
 }
